@@ -1302,9 +1302,24 @@ impl Session {
                 "[Session] process_stream_data: Waiting for data from streams (iteration {})",
                 iteration
             );
+            // Register for the close notification before looking at the flag: close()
+            // uses notify_waiters(), which leaves nothing behind for a waiter that
+            // registers later (session closed before this task started waiting, or
+            // while it was busy writing), and the task would then wait forever.
+            let closed = close_notify.notified();
+            tokio::pin!(closed);
+            closed.as_mut().enable();
+            if self.is_closed() {
+                tracing::debug!(
+                    session_id = session_id,
+                    "[Session] process_stream_data: Session closed, exiting (iteration {})",
+                    iteration
+                );
+                break;
+            }
             let result = tokio::select! {
                 biased;
-                _ = close_notify.notified() => {
+                _ = &mut closed => {
                     tracing::debug!(
                         session_id = session_id,
                         "[Session] process_stream_data: Received close notification (iteration {})",
